@@ -12,7 +12,8 @@ SPECS.update(race.SPECS)
 from . import common as C
 BUILDERS = [
     lambda: C.ocaml_build("pure_run", "theories/Extract/ExtractPure.v", "pure_model", "pure_run.ml"),
-    lambda: C.go_build("pure"),
+    lambda: C.go_build("pure", cover="go.linecorp.com/garr/retry,go.linecorp.com/garr/circuit-breaker"),
+    lambda: C.go_build("volume"),
     lambda: conc.build_replayer(),
     lambda: conc.build_driver("queue"),
     lambda: conc.build_driver("adder"),
